@@ -134,6 +134,18 @@ func (vc *VC) ghostAt(fr *Frame, n *Node, where, callee string, ord int, res ...
 				}
 			}
 		}
+		if g.Check != nil {
+			f, err := sc.formula(g.Check)
+			if err != nil {
+				vc.specErrs = append(vc.specErrs, fmt.Sprintf("check %q: %v", g.Text, err))
+				continue
+			}
+			ob := vc.newObl(fmt.Sprintf("%s/check %s call %s#%d", relKey(fr.fn), g.Where, g.Callee, g.Ord), "assert", g.Tags, g.Text, token.NoPos)
+			ob.Pos = fmt.Sprintf("%s:%d", strings.TrimPrefix(fr.fc.File, "/repo/"), g.Line)
+			vc.assertAt(n, f, ob)
+			fr.ghostDone[g] = true
+			continue
+		}
 		lhs, err := sc.eval(g.LHS)
 		if err != nil || lhs.LV == nil {
 			vc.specErrs = append(vc.specErrs, fmt.Sprintf("ghost statement %q: bad left-hand side (%v)", g.Text, err))
@@ -198,14 +210,10 @@ func (vc *VC) atReturn(fr *Frame, n *Node, results []string, pos token.Pos) {
 
 // lockBalance: a function is lock-neutral unless its contract says acquires/releases.
 func (vc *VC) lockBalance(fr *Frame, n *Node, pos token.Pos) {
-	var names []string
-	for k := range vc.svars {
-		if vc.p.lockMaps[k] && n.env[k] != fr.entryEnv[k] {
-			names = append(names, k)
-		}
+	if _, ok := vc.svars["LockSt"]; !ok || n.env["LockSt"] == fr.entryEnv["LockSt"] {
+		return
 	}
-	sort.Strings(names)
-	exempt := map[string]string{} // map name -> allowed delta description
+	var ex []string
 	if fr.fc != nil {
 		for _, c := range fr.fc.Clauses {
 			if c.Kind == "acquires" || c.Kind == "releases" {
@@ -221,22 +229,22 @@ func (vc *VC) lockBalance(fr *Frame, n *Node, pos token.Pos) {
 						vc.specError(c, fmt.Errorf("bad lock location %q", loc))
 						continue
 					}
-					exempt[vc.heapMapName(v.LV.root, v.LV.path)] = v.LV.ref
+					if v.Ty != nil {
+						if pt, ok := v.Ty.Underlying().(*types.Pointer); ok && isLockType(pt.Elem()) {
+							ex = append(ex, sNot(sEq("a", sc.term(v))))
+							continue
+						}
+					}
+					ex = append(ex, sNot(sEq("a", vc.lockAddr(v.LV))))
 				}
 			}
 		}
 	}
-	for _, k := range names {
-		var f string
-		if ref, ok := exempt[k]; ok {
-			f = fmt.Sprintf("(forall ((r Int)) (=> (not (= r %s)) (= (select %s r) (select %s r))))", ref, verName(k, n.env[k]), verName(k, fr.entryEnv[k]))
-		} else {
-			// objects allocated during the call are irrelevant to the caller
-			f = fmt.Sprintf("(forall ((r Int)) (=> (select %s r) (= (select %s r) (select %s r))))", verName("alloc", fr.entryEnv["alloc"]), verName(k, n.env[k]), verName(k, fr.entryEnv[k]))
-		}
-		ob := vc.newObl(fmt.Sprintf("%s/lock/balanced %s", relKey(fr.fn), strings.TrimPrefix(k, "H$")), "lock", vc.lockTags, "lock state at exit equals lock state at entry", pos)
-		vc.assertAt(n, f, ob)
-	}
+	// locks of objects allocated during the call are irrelevant to the caller: only addresses whose state differed matter;
+	// state of addresses not mentioned must be equal
+	f := fmt.Sprintf("(forall ((a Int)) (=> %s (= (select %s a) (select %s a))))", sAnd(ex...), verName("LockSt", n.env["LockSt"]), verName("LockSt", fr.entryEnv["LockSt"]))
+	ob := vc.newObl(fmt.Sprintf("%s/lock/balanced", relKey(fr.fn)), "lock", vc.lockTags, "lock state at exit equals lock state at entry (except acquires/releases)", pos)
+	vc.assertAt(n, f, ob)
 }
 
 // frameSpec: the locations an explicit `modifies` allows to change, evaluated in the entry state.
